@@ -319,6 +319,16 @@ func c05CompileInputs(r *core.Rng) []string {
 	// calls of functions that are in no table
 	out = append(out, core.Pick(r, []string{"site-fn(../a) = 1", "site-fn()", "other-fn(../a) = 1", "site-fn(1, 'x') and count(a) > 0", "count(site-x(a)) + nosuchfn(1)",
 		"site-(1)", "site-fn(site-fn(site-fn(a)))", "text() and site-fn()", "/a[site-k(.) = 1]/b"}))
+	// long texts that fail near their end, near their start or in the middle (messages quote the text around the position)
+	{
+		unit := core.Pick(r, []string{"../a + ", "count(../b) - ", "/r/l[k = 'v']/c * ", "../", "a/b/", "1 + "})
+		long := strings.Repeat(unit, 1+r.Range(40, 400)/len(unit))
+		bad := core.Pick(r, []string{"1 = 7 )", "'abc", "nosuch(", "= ", "1 1", "]", "a b", "$v", "1.2.3", "@", "\xff", "a[", ""})
+		out = append(out, long+bad, bad+" "+long+"1", ") = "+long+"1", long+bad+" "+long+"1", long+"1 "+bad)
+		res := long + "1"
+		k := r.Intn(len(res) + 1)
+		out = append(out, res[:k]+bad+res[k:])
+	}
 	// random bytes
 	for i := 0; i < 4; i++ {
 		n := r.Intn(65)
